@@ -194,6 +194,47 @@ Section WithSort.
     if negb matched then Some empty_result
     else chase (S (length tbl)) tbl qt host host [] [] rws matched.
 
+  (** Result.CanonNameRewritten (fix 2e58a5d), as processRewrites sets it:
+      the same loop as [chase], returning the flag.  It is assigned AFTER
+      setRewriteResult, from what the loop left: [res.CanonName != "" &&
+      matched && (len(rewrites) == 0 || rewrites[0].Type != dns.TypeCNAME)];
+      the early returns (an exception: Result{}; a detected loop: res as it
+      is) leave it false; after the break of the "*.example.com ->
+      sub.example.com" case the first entry is that canonical-name entry, so
+      the expression is false there too. *)
+  Definition covered_after (canon : bytes) (rws : list entry) (matched : bool) : bool :=
+    negb (is_nil canon) && matched &&
+    match rws with [] => true | rw :: _ => negb (is_cname rw) end.
+
+  Fixpoint chase_covered (fuel : nat) (tbl : list entry) (qt : N) (orig host : bytes)
+      (visited : list bytes) (canon : bytes) (rws : list entry) (matched : bool)
+      : option bool :=
+    match fuel with
+    | O => None
+    | S fuel' =>
+        let done := Some (covered_after canon rws matched) in
+        match rws with
+        | rw :: _ =>
+            if matched && is_cname rw then
+              let pat := e_dom rw in
+              let ans := e_ans rw in
+              if eqb_bytes orig ans || eqb_bytes pat ans then Some false
+              else if eqb_bytes host ans && is_wildcard pat then
+                Some (covered_after host rws matched)
+              else if mem_bytes ans visited then Some false
+              else
+                let '(rws', matched') := find_rewrites tbl ans qt in
+                chase_covered fuel' tbl qt orig ans (ans :: visited) ans rws' matched'
+            else done
+        | [] => done
+        end
+    end.
+
+  Definition process_rewrites_covered (tbl : list entry) (host : bytes) (qt : N) : option bool :=
+    let '(rws, matched) := find_rewrites tbl host qt in
+    if negb matched then Some false
+    else chase_covered (S (length tbl)) tbl qt host host [] [] rws matched.
+
   (** CheckHost as far as rewrites are concerned: no other checker matches
       (they are the subject of other properties), so a result whose reason
       is not Rewritten is replaced by the empty result. *)
@@ -206,6 +247,25 @@ Section WithSort.
     | Some r =>
         match r_reason r with Rewritten => Some r | NotFound => Some empty_result end
     end.
+  (** The flag of the result CheckHost returns (a result that is not
+      "rewritten" is replaced by the empty one, flag included). *)
+  Definition check_host_covered (filtering_enabled : bool) (tbl : list entry)
+      (host : bytes) (qt : N) : option bool :=
+    if is_nil host then Some false
+    else if negb filtering_enabled then Some false
+    else match process_rewrites tbl (to_lower host) qt with
+    | None => None
+    | Some r =>
+        match r_reason r with
+        | Rewritten => process_rewrites_covered tbl (to_lower host) qt
+        | NotFound => Some false
+        end
+    end.
+  (** The same as a boolean (the chase never runs out of fuel:
+      C06_terminates; [false] stands for that impossible case). *)
+  Definition covered_flag (filtering_enabled : bool) (tbl : list entry)
+      (host : bytes) (qt : N) : bool :=
+    match check_host_covered filtering_enabled tbl host qt with Some b => b | None => false end.
 End WithSort.
 
 (** A concrete stable sort for the evaluator: insertion sort ([x] goes before
@@ -250,6 +310,11 @@ Section Respond.
   Definition answers_v6 (owner : bytes) (ips : list ip) : list rr :=
     map (fun i => RR_AAAA owner (ip_val i)) (filter (fun i => negb (ip_is4 i)) ips).
 
+  (** isRewrittenCNAME (after 2e58a5d): a canonical name and no address, and
+      the canonical name not itself covered by the table. *)
+  Definition via_upstream (r : rw_result) (covered : bool) : bool :=
+    negb (is_nil (r_canon r)) && is_nil (r_ips r) && negb covered.
+
   Definition respond (enabled : bool) (tbl : list entry) (qname : bytes) (qt : N)
     : option response :=
     match check_host sort enabled tbl qname qt with
@@ -261,7 +326,7 @@ Section Respond.
             Some {| rp_qname := qname; rp_rcode := rc; rp_answer := ans;
                     rp_upstream := [(qname, qt)] |}
         | Rewritten =>
-            if negb (is_nil (r_canon r)) && is_nil (r_ips r) then
+            if via_upstream r (covered_flag sort enabled tbl qname qt) then
               (* isRewrittenCNAME: ask for the canonical name, then restore
                  the question and prepend the CNAME *)
               let '(rc, ans) := upstream (r_canon r) qt in
@@ -331,7 +396,7 @@ Section RespondE.
         match r_reason r with
         | NotFound => Some (forward qname qname qt [])
         | Rewritten =>
-            if negb (is_nil (r_canon r)) && is_nil (r_ips r) then
+            if via_upstream r (covered_flag sort enabled tbl qname qt) then
               Some (forward (r_canon r) qname qt [RR_CNAME qname (r_canon r)])
             else Some (false, local_response r qname qt)
         end
